@@ -32,6 +32,7 @@ VERIF = Path(__file__).resolve().parents[1]
 GEN = VERIF / "lean" / "Nstd" / "Generated"
 OUT = GEN / "Sha256Tables.lean"
 OUT_U2 = GEN / "Sha256U2.lean"
+OUT_BODY = GEN / "Sha256Body.lean"
 UNROLL2 = "_SHA256_UNROLL2"
 
 
@@ -968,6 +969,411 @@ def transform_function(M, code):
     return dict(arrays), ptr, immut, roots, fg.defs
 
 
+# ---- object-level functions (WriteByteBlock, update, finalize): typed translation ---------------------
+WIDTH = {"UInt8": 8, "UInt32": 32, "UInt64": 64}
+FIELDS = {"state": ("array", "UInt32", 8), "count": ("scalar", "UInt64", None), "buffer": ("array", "UInt8", 64)}
+SHA = "Nstd.Sha.Sha"
+CMP = {"==": "=", "!=": "≠", "<": "<", ">": ">", "<=": "≤", ">=": "≥"}
+ARITH = {"+": "+", "-": "-", "*": "*", "&": "&&&", "|": "|||", "^": "^^^"}
+FUEL = 2 ** 32
+
+
+class BE:
+    """emission state of one straight-line region"""
+
+    def __init__(self, counter, st="st0", counters=(), head=None):
+        self.counter, self.st, self.counters, self.head = counter, st, list(counters), head
+        self.lines, self.reads, self.pending = [], [], []
+        self.used_head = self.size_dec = 0
+
+    def fresh(self, p):
+        self.counter[0] += 1
+        return f"{p}{self.counter[0]}"
+
+
+class BodyGen:
+    """translates one function that works on a `Sha256` object into Lean definitions over a record `<f>_S` of the
+    object (`p : Nstd.Sha.Sha`, ghost flag in `p.ok`), the function's local scalars/arrays and (finalize) the bytes
+    written through the output pointer (`out`)"""
+
+    def __init__(self, fname, items, obj, in_stream=None, out_ref=None):
+        self.fname, self.items, self.obj, self.in_stream, self.out_ref = fname, items, obj, in_stream, out_ref
+        self.S = f"{fname}_S"
+        self.counters = for_counters(items, set())
+        self.scalars, self.arrays, self.out_ptr = {}, {}, None
+        for d in flat_decls(items, []):
+            _, ty, isptr, name, n, init = d
+            if isptr:
+                if ty == "Sha" and init == ("var", "this"):
+                    self.obj = name
+                elif ty == "UInt8" and out_ref and init == ("var", out_ref):
+                    self.out_ptr = name
+                else:
+                    raise Untranslatable(f"{fname}: pointer local `{name}` is not translated")
+            elif n is not None:
+                self.arrays[name] = (ty, n)
+            elif name not in self.counters:
+                if ty not in WIDTH:
+                    raise Untranslatable(f"{fname}: local `{name}` of type {ty}")
+                self.scalars[name] = ty
+        self.defs, self.nloop, self.counter = [], 0, [0]
+
+    # -- helpers
+    def set_p(self, be, field, val):
+        new = be.fresh("st")
+        be.lines.append(f"let {new} : {self.S} := {{ {be.st} with p := {{ {be.st}.p with {field} := {val} }} }}")
+        be.st = new
+
+    def set_local(self, be, name, val):
+        new = be.fresh("st")
+        be.lines.append(f"let {new} : {self.S} := {{ {be.st} with {name} := {val} }}")
+        be.st = new
+
+    def flush(self, be):
+        if be.reads:
+            seen = []
+            for r in be.reads:
+                if r not in seen:
+                    seen.append(r)
+            be.reads = []
+            self.set_p(be, "ok", " && ".join([f"{be.st}.p.ok"] + [f"Sha256.inb {a} {i}" for a, i in seen]))
+
+    def finish_stmt(self, be):
+        self.flush(be)
+        for v in be.pending:
+            self.set_local(be, v, f"{be.st}.{v} + 1")
+        be.pending = []
+
+    def array(self, name, be):
+        if name.startswith(self.obj + "->"):
+            f = name.split("->", 1)[1]
+            if f in FIELDS and FIELDS[f][0] == "array":
+                return f"{be.st}.p.{f}", FIELDS[f][1], ("p", f)
+        if name in self.arrays:
+            return f"{be.st}.{name}", self.arrays[name][0], ("local", name)
+        raise Untranslatable(f"{self.fname}: `{name}[..]` is not an array of the object or a local array")
+
+    def index(self, t, ty):
+        if ty == "lit":
+            return f"(({t} : UInt32)).toNat"
+        if ty == "UInt32":
+            return f"({t}).toNat"
+        raise Untranslatable(f"{self.fname}: array index of type {ty}")
+
+    def unify(self, a, b, what):
+        if a == "lit":
+            return b
+        if b == "lit" or a == b:
+            return a
+        raise Untranslatable(f"{self.fname}: operands of {what} have different types {a}/{b} (implicit conversions are not translated)")
+
+    # -- expressions: (Lean term, type)
+    def ex(self, n, be):
+        k = n[0]
+        if k == "num":
+            return str(n[1]), "lit"
+        if k == "var":
+            v = n[1]
+            if v in be.counters:
+                return f"(UInt32.ofNat {v})", "UInt32"
+            if v in self.scalars:
+                return f"{be.st}.{v}", self.scalars[v]
+            raise Untranslatable(f"{self.fname}: variable `{v}` is not a local scalar or a loop counter in scope")
+        if k == "mem":
+            if n[1] != self.obj or n[2] not in FIELDS or FIELDS[n[2]][0] != "scalar":
+                raise Untranslatable(f"{self.fname}: member access {n[1]}->{n[2]}")
+            return f"{be.st}.p.{n[2]}", FIELDS[n[2]][1]
+        if k == "idx":
+            arr, ety, _ = self.array(n[1], be)
+            i, ity = self.ex(n[2], be)
+            idx = self.index(i, ity)
+            be.reads.append((arr, idx))
+            return f"({arr}.getD {idx} 0)", ety
+        if k == "cast":
+            t, sty = self.ex(n[2], be)
+            if n[1] not in WIDTH:
+                raise Untranslatable(f"{self.fname}: cast to {n[1]}")
+            if sty == "lit":
+                return f"({t} : {n[1]})", n[1]
+            return (t, sty) if sty == n[1] else (f"({t}).to{n[1]}", n[1])
+        if k == "not":
+            t, ty = self.ex(n[1], be)
+            if ty in ("UInt8", "lit"):
+                raise Untranslatable(f"{self.fname}: ~ on a promoted operand")
+            return f"(~~~ {t})", ty
+        if k == "bin" and n[1] in ARITH:
+            l, lt = self.ex(n[2], be)
+            r, rt = self.ex(n[3], be)
+            ty = self.unify(lt, rt, n[1])
+            if ty == "UInt8":
+                raise Untranslatable(f"{self.fname}: arithmetic on byte operands (integer promotion is not translated)")
+            return f"({l} {ARITH[n[1]]} {r})", ty
+        if k == "bin" and n[1] in ("<<", ">>"):
+            l, lt = self.ex(n[2], be)
+            if n[3][0] != "num" or lt not in WIDTH or lt == "UInt8" or n[3][1] >= WIDTH[lt]:
+                raise Untranslatable(f"{self.fname}: shift whose amount is not a constant below the width of a 32/64-bit operand")
+            return f"({l} {'<<<' if n[1] == '<<' else '>>>'} {n[3][1]})", lt
+        if k == "post" and n[1] == "++" and n[2][0] == "var" and n[2][1] in self.scalars:
+            v = n[2][1]
+            if v in be.pending:
+                raise Untranslatable(f"{self.fname}: `{v}++` twice in one statement")
+            t = be.fresh(v + "_")
+            be.lines.append(f"let {t} := {be.st}.{v}")
+            be.pending.append(v)
+            return t, self.scalars[v]
+        if k == "deref" and self.in_stream and n[1] == ("post", "++", ("var", self.in_stream[0])) and be.head:
+            be.used_head += 1
+            return be.head, "UInt8"
+        raise Untranslatable(f"{self.fname}: unsupported expression {n[0]} {n[1] if len(n) > 1 and isinstance(n[1], str) else ''}")
+
+    def cond(self, n, be):
+        if n[0] == "bin" and n[1] in CMP:
+            l, lt = self.ex(n[2], be)
+            r, rt = self.ex(n[3], be)
+            self.unify(lt, rt, n[1])
+            if lt == "lit" and rt == "lit":
+                raise Untranslatable(f"{self.fname}: comparison of two literals")
+            return f"{l} {CMP[n[1]]} {r}"
+        raise Untranslatable(f"{self.fname}: condition is not a comparison")
+
+    # -- statements
+    def assign(self, n, be):
+        op, l, r = n[1], n[2], n[3]
+        rt, rty = self.ex(r, be)
+
+        def combine(cur, ty):
+            self.unify(ty, rty, op)
+            if op == "=":
+                return rt if rty != "lit" else f"({rt} : {ty})"
+            if op in ("<<=", ">>="):
+                if r[0] != "num" or r[1] >= WIDTH[ty] or ty == "UInt8":
+                    raise Untranslatable(f"{self.fname}: {op} with a non-constant or too large amount")
+                return f"({cur} {'<<<' if op == '<<=' else '>>>'} {r[1]})"
+            o = op[:-1]
+            if o not in ARITH or ty == "UInt8":
+                raise Untranslatable(f"{self.fname}: assignment operator {op}")
+            return f"({cur} {ARITH[o]} {rt})"
+
+        if l[0] == "var" and l[1] in self.scalars:
+            v = be.fresh("v")
+            be.lines.append(f"let {v} := {combine(f'{be.st}.{l[1]}', self.scalars[l[1]])}")
+            self.flush(be)
+            self.set_local(be, l[1], v)
+        elif l[0] == "mem" and l[1] == self.obj and l[2] in FIELDS and FIELDS[l[2]][0] == "scalar":
+            v = be.fresh("v")
+            be.lines.append(f"let {v} := {combine(f'{be.st}.p.{l[2]}', FIELDS[l[2]][1])}")
+            self.flush(be)
+            self.set_p(be, l[2], v)
+        elif l[0] == "idx":
+            if op != "=":
+                raise Untranslatable(f"{self.fname}: {op} on an array element")
+            _, ety, where = self.array(l[1], be)
+            it, ity = self.ex(l[2], be)
+            idx = self.index(it, ity)
+            v = be.fresh("v")
+            be.lines.append(f"let {v} := {combine(None, ety)}")
+            self.flush(be)
+            if where[0] == "p":
+                self.set_p(be, where[1], f"Sha256.wr {be.st}.p.{where[1]} {idx} {v}")
+            else:
+                self.set_local(be, where[1], f"Sha256.wr {be.st}.{where[1]} {idx} {v}")
+        elif l[0] == "deref" and self.out_ptr and l[1] == ("post", "++", ("var", self.out_ptr)):
+            if op != "=":
+                raise Untranslatable(f"{self.fname}: {op} through the output pointer")
+            v = be.fresh("v")
+            be.lines.append(f"let {v} := {combine(None, 'UInt8')}")
+            self.flush(be)
+            self.set_local(be, "out", f"{be.st}.out ++ [{v}]")
+        else:
+            raise Untranslatable(f"{self.fname}: assignment target is not translated")
+        self.finish_stmt(be)
+
+    def call(self, n, be):
+        name, args = n[1], n[2]
+        if name == "WriteByteBlock" and args == [("var", self.obj)]:
+            self.flush(be)
+            new = be.fresh("st")
+            be.lines.append(f"let {new} : {self.S} := {{ {be.st} with p := WriteByteBlock {be.st}.p }}")
+            be.st = new
+        elif name == "reset" and not args:
+            self.flush(be)
+            new = be.fresh("st")
+            be.lines.append(f"let {new} : {self.S} := {{ {be.st} with p := Nstd.Sha.reset {be.st}.p }}")
+            be.st = new
+        elif name == "Transform" and len(args) == 2 and args[0] == ("mem", self.obj, "state") and args[1][0] == "var" \
+                and self.arrays.get(args[1][1]) == ("UInt32", 16):
+            self.flush(be)
+            r = be.fresh("r")
+            be.lines.append(f"let {r} := Transform_call {be.st}.p.state {be.st}.{args[1][1]}")
+            new = be.fresh("st")
+            be.lines.append(f"let {new} : {self.S} := {{ {be.st} with p := {{ {be.st}.p with state := {r}.1, ok := {be.st}.p.ok && {r}.2 }} }}")
+            be.st = new
+        else:
+            raise Untranslatable(f"{self.fname}: call of {name} is not translated")
+
+    def stmt(self, s, be):
+        k = s[0]
+        if k == "block":
+            for x in s[1]:
+                self.stmt(x, be)
+        elif k == "decl":
+            _, ty, isptr, name, n, init = s
+            if init is not None and not isptr:
+                self.assign(("asg", "=", ("var", name), init), be)
+        elif k == "expr":
+            e = s[1]
+            if e[0] == "asg":
+                self.assign(e, be)
+            elif e[0] == "call":
+                self.call(e, be)
+            elif e[0] == "post" and e[1] == "--" and self.in_stream and e[2] == ("var", self.in_stream[1]) and be.head:
+                be.size_dec += 1
+            elif e[0] == "post" and e[1] == "++":
+                self.assign(("asg", "+=", e[2], ("num", 1)), be)
+            else:
+                raise Untranslatable(f"{self.fname}: expression statement {e[0]}")
+        elif k == "if":
+            c = self.cond(s[1], be)
+            self.flush(be)
+            blocks = []
+            for br in (s[2], s[3]):
+                ch = BE(be.counter, be.st, be.counters, be.head)
+                if br is not None:
+                    self.stmt(br, ch)
+                    self.flush(ch)
+                    if ch.used_head or ch.size_dec:
+                        raise Untranslatable(f"{self.fname}: the input stream is consumed under a condition")
+                blocks.append("(" + "; ".join(ch.lines + [ch.st]) + ")" if ch.lines else ch.st)
+            new = be.fresh("st")
+            be.lines.append(f"let {new} : {self.S} := if {c} then {blocks[0]} else {blocks[1]}")
+            be.st = new
+        elif k == "for":
+            self.for_(s, be)
+        elif k == "while":
+            self.while_(s, be)
+        else:
+            raise Untranslatable(f"{self.fname}: statement `{k}` is not translated")
+
+    def cnt(self, cs):
+        return "".join(f" ({c} : Nat)" for c in cs), "".join(" " + c for c in cs)
+
+    def for_(self, s, be):
+        init, cond, step, body = s[1:]
+        ok = (init and init[0] == "asg" and init[1] == "=" and init[2][0] == "var" and init[3][0] == "num"
+              and cond and cond[0] == "bin" and cond[1] == "<" and cond[2] == init[2] and cond[3][0] == "num"
+              and step and step[0] == "post" and step[1] == "++" and step[2] == init[2])
+        if not ok:
+            raise Untranslatable(f"{self.fname}: only `for (v = const; v < const; v++)` loops are translated")
+        v, start, bound = init[2][1], init[3][1], cond[3][1]
+        if v not in self.counters or v in be.counters or v in self.scalars or bound >= 2 ** 31:
+            raise Untranslatable(f"{self.fname}: loop counter {v}")
+        self.nloop += 1
+        name = f"{self.fname}_for{self.nloop}"
+        ch = BE(be.counter, "st0", be.counters + [v], be.head)
+        self.stmt(body, ch)
+        self.flush(ch)
+        if ch.used_head or ch.size_dec:
+            raise Untranslatable(f"{self.fname}: the input stream is consumed inside a for loop")
+        sig, args = self.cnt(be.counters)
+        self.defs.append(f"/-- body of the loop `for ({v} = {start}; {v} < {bound}; {v}++)` of `{self.fname}` -/\n"
+                         f"def {name}_body{sig} ({v} : Nat) (st0 : {self.S}) : {self.S} :=\n" + "".join(f"  {l}\n" for l in ch.lines) + f"  {ch.st}\n\n"
+                         f"/-- `for ({v} = {start}; {v} < {bound}; {v}++) …` of `{self.fname}`, entered with the counter at `{v}` -/\n"
+                         f"def {name}{sig} ({v} : Nat) (st0 : {self.S}) : {self.S} :=\n"
+                         f"  if {v} < {bound} then {name}{args} ({v} + 1) ({name}_body{args} {v} st0) else st0\n"
+                         f"termination_by {bound} - {v}\n\n")
+        self.flush(be)
+        new = be.fresh("st")
+        be.lines.append(f"let {new} := {name}{args} {start} {be.st}")
+        be.st = new
+
+    def while_(self, s, be):
+        c, body = s[1], s[2]
+        self.nloop += 1
+        name = f"{self.fname}_while{self.nloop}"
+        sig, args = self.cnt(be.counters)
+        self.flush(be)
+        if self.in_stream and c == ("bin", ">", ("var", self.in_stream[1]), ("num", 0)) and not be.head:
+            ch = BE(be.counter, "st0", be.counters, "b")
+            self.stmt(body, ch)
+            self.flush(ch)
+            if ch.used_head != 1 or ch.size_dec != 1:
+                raise Untranslatable(f"{self.fname}: the loop `while ({self.in_stream[1]} > 0)` must read `*{self.in_stream[0]}++` and do `{self.in_stream[1]}--` exactly once per iteration")
+            self.defs.append(f"/-- one iteration of `while ({self.in_stream[1]} > 0)` of `{self.fname}`; `b` is the byte `*{self.in_stream[0]}++` -/\n"
+                             f"def {name}_body{sig} (b : UInt8) (st0 : {self.S}) : {self.S} :=\n" + "".join(f"  {l}\n" for l in ch.lines) + f"  {ch.st}\n\n"
+                             f"/-- `while ({self.in_stream[1]} > 0) …` over the remaining input bytes -/\n"
+                             f"def {name}{sig} : List UInt8 → {self.S} → {self.S}\n"
+                             f"  | [], st0 => st0\n  | b :: rest, st0 => {name}{args} rest ({name}_body{args} b st0)\n\n")
+            new = be.fresh("st")
+            be.lines.append(f"let {new} := {name}{args} {self.in_stream[0]} {be.st}")
+            be.st = new
+            return
+        probe = BE(be.counter, "st0", be.counters, be.head)
+        ct = self.cond(c, probe)
+        if probe.reads or probe.lines:
+            raise Untranslatable(f"{self.fname}: loop condition with array reads or side effects")
+        ch = BE(be.counter, "st0", be.counters, None)
+        self.stmt(body, ch)
+        self.flush(ch)
+        self.defs.append(f"/-- one iteration of `while (…)` number {self.nloop} of `{self.fname}` -/\n"
+                         f"def {name}_body{sig} (st0 : {self.S}) : {self.S} :=\n" + "".join(f"  {l}\n" for l in ch.lines) + f"  {ch.st}\n\n"
+                         f"/-- the `while` loop with an iteration budget (`fuel`); running out of it clears the ghost flag `ok` (the theorems\n"
+                         f"show that this does not happen: the loop ends long before) -/\n"
+                         f"def {name}{sig} : Nat → {self.S} → {self.S}\n"
+                         f"  | 0, st0 => {{ st0 with p := {{ st0.p with ok := false }} }}\n"
+                         f"  | fuel + 1, st0 => if {ct} then {name}{args} fuel ({name}_body{args} st0) else st0\n\n")
+        new = be.fresh("st")
+        be.lines.append(f"let {new} := {name}{args} {FUEL} {be.st}")
+        be.st = new
+
+    def run(self, doc, result, params):
+        be = BE(self.counter)
+        for x in self.items:
+            self.stmt(x, be)
+        self.flush(be)
+        fields = [f"  p : {SHA}\n"] + [f"  {a} : List {ty}\n" for a, (ty, n) in self.arrays.items()] + \
+                 [f"  {v} : {ty}\n" for v, ty in self.scalars.items()] + (["  out : List UInt8\n"] if self.out_ptr else [])
+        init = ["p := p"] + [f"{a} := List.replicate {n} 0" for a, (ty, n) in self.arrays.items()] + \
+               [f"{v} := 0" for v in self.scalars] + (["out := []"] if self.out_ptr else [])
+        head = (f"/-- the object, the local variables" + (" and the bytes written through the output pointer" if self.out_ptr else "") +
+                f" of `{self.fname}` -/\nstructure {self.S} where\n" + "".join(fields) + "\n")
+        main = (doc + f"def {self.fname} {params} :=\n  let st0 : {self.S} := {{ {', '.join(init)} }}\n" +
+                "".join(f"  {l}\n" for l in be.lines) + f"  {result.format(st=be.st)}\n\n")
+        return head + "".join(self.defs) + main
+
+
+def body_functions(raw, params_check=True):
+    """Lean text of WriteByteBlock, update, finalize translated from the directives-only view of the sources"""
+    out = []
+    # class layout the model's `Sha` mirrors
+    m = re.search(r"private:\s*uint32\s+state\s*\[\s*8\s*\]\s*;\s*uint64\s+count\s*;\s*byte\s+buffer\s*\[\s*64\s*\]\s*;", raw)
+    if not m:
+        raise Untranslatable("class Sha256: data members are not `uint32 state[8]; uint64 count; byte buffer[64];`")
+    squeeze = lambda t: re.sub(r"\s+", " ", t).strip()
+    params, body = function_text(raw, r"static\s+void\s+WriteByteBlock\s*\(([^)]*)\)\s*\{", "Sha256::Private::WriteByteBlock")
+    mp = re.match(r"\s*Sha256\s*\*\s*(\w+)\s*$", params)
+    if not mp:
+        raise Untranslatable(f"WriteByteBlock: parameter list `{params}`")
+    g = BodyGen("WriteByteBlock", parse_function(body), mp.group(1))
+    out.append(g.run(f"/-- `Sha256::Private::WriteByteBlock({squeeze(params)})`: `{squeeze(body)}` -/\n", "{st}.p", f"(p : {SHA}) : {SHA}"))
+    params, body = function_text(raw, r"void\s+Sha256::update\s*\(([^)]*)\)\s*\{", "Sha256::update")
+    mp = re.match(r"\s*const\s+Byte\s*\*\s*(\w+)\s*,\s*usize\s+(\w+)\s*$", params)
+    if not mp:
+        raise Untranslatable(f"update: parameter list `{params}`")
+    g = BodyGen("update", parse_function(body), None, in_stream=(mp.group(1), mp.group(2)))
+    out.append(g.run(f"/-- `Sha256::update({squeeze(params)})`: `{squeeze(body)}`; the byte range is the list `{mp.group(1)}` -/\n", "{st}.p",
+                     f"(p : {SHA}) ({mp.group(1)} : List UInt8) : {SHA}"))
+    params, body = function_text(raw, r"void\s+Sha256::finalize\s*\(([^{]*)\)\s*\{", "Sha256::finalize")
+    mp = re.match(r"\s*byte\s*\(\s*&\s*(\w+)\s*\)\s*\[\s*digestSize\s*\]\s*$", params)
+    if not mp:
+        raise Untranslatable(f"finalize: parameter list `{params}`")
+    g = BodyGen("finalize", parse_function(body), None, out_ref=mp.group(1))
+    if g.out_ptr is None:
+        raise Untranslatable("finalize: no output pointer initialised from the digest parameter")
+    out.append(g.run(f"/-- `Sha256::finalize({squeeze(params)})`: `{squeeze(body)}`; result: the bytes written through the output pointer, and the object -/\n",
+                     "({st}.out, {st}.p)", f"(p : {SHA}) : List UInt8 × {SHA}"))
+    return "".join(out)
+
+
 # ---- extraction ----------------------------------------------------------------------------------
 PURE = ["rotrFixed", "S0", "S1", "s0", "s1", "Ch", "Maj"]
 
@@ -999,7 +1405,7 @@ def macro_table(pp):
     return defs
 
 
-def generate(repo, defines=(), ns="Sha256", suffix=""):
+def generate(repo, defines=(), ns="Sha256", suffix="", want_body=False):
     pp = preprocess(repo, defines)
     defs = macro_table(pp)
     code = "\n".join(l for l in pp.splitlines() if not l.startswith("#"))
@@ -1100,7 +1506,19 @@ def generate(repo, defines=(), ns="Sha256", suffix=""):
                ("  (register macros: " + "; ".join(f"{r}(i) = {defs[r][1]}" for r in "abcdefgh") + ")" if name == "R" and not unroll2 else "") + " -/\n")
         out.append(proc_def(M, name, doc) + "\n")
     out += fdefs
+    out.append("/-- a call `Transform(s, d)` from another function: the callee's uninitialised locals start as zeros; yields the array\n"
+               "behind `state` afterwards and the callee's `ok` flag -/\n"
+               "def Transform_call (state data : List UInt32) : List UInt32 × Bool :=\n"
+               "  let s := Transform data { " + ", ".join([f"{a} := List.replicate {n} 0" for a, n in sorted(arrays.items())] + ["state := state"] +
+                                                       [f"{v} := 0" for v in M.scalars] + ["ok := true"]) + " }\n  (s.state, s.ok)\n\n")
     out.append(f"end Nstd.Generated.{ns}\n")
+    if want_body:
+        body = ("-- GENERATED by tools/gen_sha.py from src/Crypto/Sha256.cpp (g++ -E -dD -fdirectives-only): the bodies of\n"
+                "-- Sha256::Private::WriteByteBlock, Sha256::update, Sha256::finalize.  Do not edit.\n"
+                "import Nstd.Sha.Model\nset_option linter.unusedVariables false\n"
+                f"namespace Nstd.Generated.{ns}Body\nopen Nstd.Generated.{ns} (Transform_call)\n\n" + body_functions(raw) +
+                f"end Nstd.Generated.{ns}Body\n")
+        return "".join(out), body
     return "".join(out)
 
 
@@ -1116,13 +1534,14 @@ def run(repo=None):
         import common
         repo = common.REPO
     try:
-        text = generate(repo)
+        text, body = generate(repo, want_body=True)
         text2 = generate(repo, defines=(UNROLL2,), ns="Sha256U2", suffix="_u2")
     except Untranslatable as ex:
         return False, f"gen_sha: {ex}"
     write_if_changed(OUT, text)
     write_if_changed(OUT_U2, text2)
-    return True, hashlib.sha1((text + text2).encode()).hexdigest()[:12]
+    write_if_changed(OUT_BODY, body)
+    return True, hashlib.sha1((text + text2 + body).encode()).hexdigest()[:12]
 
 
 def gen(ctx):
